@@ -41,8 +41,20 @@ F2b == {Core(pl, pcs, "files", "absent", fs, pad) : pl \in GoodPLs, pcs \in Good
 F2c == {Core(pl, pcs, "files", "absent", fs, pad) : pl \in PLs, pcs \in PcsLens, fs \in SeqsUpTo(Lens, 2), pad \in {"none", "neg"}}
 F3q == {Core("16384", 20, "files", "absent", fs, pad) : fs \in [1 .. 3 -> Lens3], pad \in {"none", "neg"}}
 F3t == {Core(pl, pcs, "files", "absent", fs, pad) : pl \in GoodPLs, pcs \in GoodPcs, fs \in [1 .. 3 -> Lens], pad \in PadModes}
-QuickCores    == SingleCores \cup F2a \cup F2b \cup F3q
-ThoroughCores == SingleCores \cup BothCores \cup F2c \cup F3t
+\* HYBRID dictionaries: both the single-file key "length" and a non-empty "files" list, with a pieces string sized
+\* for every candidate total (length | sum(files) | length + sum(files)).  Whatever total the parser settles on, the
+\* accepted description must add up (its file list vs. its piece count) and must survive allocation + piece construction.
+LensB == {"1", "pl", "pl+1"}
+BothQ == {Core(pl, pcs, "both", len, fs, "none") : pl \in GoodPLs, pcs \in {20, 40, 60, 80}, len \in LensB,
+                                                    fs \in (SeqsUpTo(LensB, 2) \ {<<>>})}
+\* piece counts around a LOWERED Config.MaxPieces (the driver's low-limit session uses MaxPieces = 3): N = 2 .. 5 as a
+\* single file and as two files.  The same dictionaries enter through all paths (file, URL body, resume record,
+\* info from a peer for a magnet link).
+KPl == <<"pl", "2pl", "3pl", "4pl", "5pl">>
+LimitCores == {Core(pl, 20 * k, "single", KPl[k], <<>>, "none") : pl \in GoodPLs, k \in 2 .. 5}
+        \cup {Core(pl, 20 * k, "files", "absent", <<"pl", KPl[k - 1]>>, "none") : pl \in GoodPLs, k \in 2 .. 5}
+QuickCores    == SingleCores \cup F2a \cup F2b \cup F3q \cup BothQ \cup LimitCores
+ThoroughCores == SingleCores \cup BothCores \cup BothQ \cup LimitCores \cup F2c \cup F3t
 
 \* deviations that cost seconds of CPU or hundreds of MB each: applied to one representative core only
 Heavy == {"extra:nest3M", "extra:dictnest3M", "info:nest3M", "extra:comment11M", "extra:bigstr", "pieces:bigstr", "name:bigstr",
@@ -73,9 +85,40 @@ Cases ==
         reps  == IF TIER = "quick" THEN RepQuick ELSE RepCores
     IN cores \cup {[c EXCEPT !.var = v] : c \in reps, v \in Light} \cup {[Rep1 EXCEPT !.var = v] : v \in (IF TIER = "quick" THEN Heavy \ {"extra:dictnest3M", "info:nest3M"} ELSE Heavy)}
 
+(***************************************************************************)
+(* HTTP source (Session.AddURI with an http URL): scripted servers.  One   *)
+(* case = one behaviour of the environment of MetainfoFetch.tla (the       *)
+(* server's actions SrvHeaders / SrvBytes / Tick (silence) / SrvClose):    *)
+(*   hdr    when the response head arrives: prompt | never | partial (half *)
+(*          a status line, then silence) | late (after the time-out)       *)
+(*   status 200 | 404 | 500 | 204 | redirect loop | redirect chain -> 200  *)
+(*   cl     Content-Length: none | exact | huge (2^40) | under | over      *)
+(*   body   good torrent | garbage | bigvalid (valid, above MaxTorrentSize)*)
+(*          | pieces4 (valid, more pieces than the lowered MaxPieces)      *)
+(*          | endless (zero bytes for ever)                                *)
+(*   pace   fast | drip (one byte per time-out/8) | stall-start |          *)
+(*          stall-mid (half the body, then silence, connection kept open)  *)
+(*          | close-mid                                                    *)
+(* Obligation: AddURI returns (ok or error) within the configured time-out *)
+(* + slack, allocating O(MaxTorrentSize); an accepted body is WellFormed   *)
+(* and within the limits.                                                  *)
+(***************************************************************************)
+H(hdr, st, cl, body, pace) == [kind |-> "http", hdr |-> hdr, status |-> st, cl |-> cl, body |-> body, pace |-> pace]
+HttpCLs == IF TIER = "quick" THEN {"none", "exact", "huge"} ELSE {"none", "exact", "huge", "under", "over"}
+HttpCases ==
+    {H("prompt", "200", cl, body, pace) : cl \in HttpCLs, body \in {"good", "garbage", "bigvalid"},
+                                          pace \in {"fast", "drip", "stall-start", "stall-mid", "close-mid"}}
+    \cup {H("prompt", "200", cl, "endless", pace) : cl \in {"none", "huge", "under"}, pace \in {"fast", "drip"}}
+    \cup {H(hdr, "200", "exact", "good", "fast") : hdr \in {"never", "partial", "late"}}
+    \cup {H("prompt", st, "exact", "good", "fast") : st \in {"404", "500", "204", "redir-loop", "redir-chain"}}
+    \cup {H("prompt", "redir-chain", "none", "good", pace) : pace \in {"stall-mid", "drip"}}
+    \cup {H("prompt", "200", cl, "pieces4", "fast") : cl \in {"none", "exact"}}   \* valid, above the lowered MaxPieces
+
 \* one evaluation prints every case; the state space itself is a single state
 VARIABLE c
-Init == c = Cardinality(Cases) /\ \A x \in Cases : PrintT("@@" \o ToJson(x))
+Init == /\ c = 0
+        /\ \A x \in Cases : PrintT("@@" \o ToJson(x))
+        /\ \A x \in HttpCases : PrintT("@@" \o ToJson(x))
 Next == FALSE /\ UNCHANGED c
 Spec == Init /\ [][Next]_c
 =============================================================================
